@@ -44,7 +44,7 @@ bin/ngsmodel: $(THEORY_V) $(COQ)/Extract.v ocaml/driver.ml
 	@mkdir -p ocaml/gen bin
 	@cd ocaml/gen && timeout 900 coqc $(subst -Q ,-Q ../../$(COQ)/,$(QFLAGS)) ../../$(COQ)/Extract.v | grep -v '^$$' || true
 	@cp ocaml/driver.ml ocaml/gen/ && cd ocaml/gen && \
-	  ocamlfind ocamlopt -O3 -package zarith -linkpkg -w -a model.mli model.ml driver.ml -o ../../bin/ngsmodel
+	  ocamlfind ocamlopt -O3 -package zarith -linkpkg -w -a model.mli model.ml driver.ml -o ../../bin/ngsmodel.new && mv -f ../../bin/ngsmodel.new ../../bin/ngsmodel
 
 clean:
 	-find $(COQ) \( -name '*.vo' -o -name '*.vok' -o -name '*.vos' -o -name '*.glob' -o -name '.*.aux' -o -name '*.out' -o -name '*.out.tmp' \) -delete
